@@ -12,6 +12,8 @@ from core import Case, q, qs, qpts, fr, show_list, show_pts, show_pts2
 import gen as G
 
 PID = 'C09'
+FLOAT_KINDS = {'gridw', 'views', 'combine', 'genw2', 'genw', 'separate', 'genp', 'genp2', 'scale', 'b2n'}      # float-mode companion (core.float_companion)
+FLOAT_TOL = 1e-9
 STATS = G.STATS
 ASSUMPTIONS = [
     "unit-weight / common-factor theorems are stated for the evaluation on a given non-empty knot span (SpanOk) resp. for "
